@@ -129,9 +129,14 @@ func (v *printer) Printf(format string, args ...interface{}) {
 }
 
 func (v *printer) Println(args ...interface{}) {
-	if v.enab.Enabled(v.level) {
-		v.print(sprintln(args))
+	// Skip the formatting if the message is going to be dropped. Messages
+	// from DPanicLevel up are never dropped: the delegate panics or exits
+	// even if their level is disabled, just like it does for Print and
+	// Printf.
+	if v.level < zapcore.DPanicLevel && !v.enab.Enabled(v.level) {
+		return
 	}
+	v.print(sprintln(args))
 }
 
 // Logger adapts zap's Logger to be compatible with grpclog.LoggerV2 and the deprecated grpclog.Logger.
